@@ -349,12 +349,17 @@ def ch_e2e(ctx) -> Channel:
     from props import c02
     from dashlive.server.options.repository import OptionsRepository
     ch = Channel("live_e2e", rule=(
-        "every live-capable manifest template (discovered from the server's manifest_map) x streams bbb, "
-        "tears, syn1, syn2 x random option subsets (timeline, depth, leeway, mup, abr, base, acodec, events, "
-        "patch, drm) x start=epoch|year|month|today|now|explicit x clocks; every Representation's init URL "
-        "and a selection of listed $Time$ entries / in-window $Number$ values fetched at the same clock "
-        "through BaseURL + template + query as the manifest spells them; statuses vs model and vs the "
-        "property; non-trivial = fetched media segment; distinct by (url, clock, representation, value)"))
+        "every live-capable manifest template (discovered from the server's manifest_map) x streams bbb, tears, "
+        "syn1..syn10, synbig, bbbd (irregular/drifting tracks, fragments numbered from 0 and 7, first decode time "
+        "8 s, NTSC, two segments, stored stream defaults, default sample durations, segments larger than the "
+        "loader's cache window, a stored DRM default) x random subsets of every option with a media usage bit "
+        "(incl. negative/zero/none values) x start=epoch|year|month|today|now|explicit (UTC offsets in turn) + "
+        "fixed classes: 17 calendar instants (symbolic boundaries, whole days + < 1 s, drift next to a boundary), "
+        "deep-buffer, very old starts, 2^31/2^32/2^33 ticks, young streams, URL values equal to the server default; "
+        "every Representation's init URL and the first two, quarter, half, last three and width-boundary entries of "
+        "the listed $Time$ entries / in-window $Number$ values fetched at the same clock through BaseURL + template + "
+        "query as the manifest spells them; statuses vs model and vs the property; non-trivial = fetched media "
+        "segment; distinct by (url, clock, representation, value)"))
     app = segchecks.get_app()
     client = app.client()
     rng = ctx.rng("live_e2e")
